@@ -85,6 +85,11 @@ func genC14(o *hx.Out, tier string) {
 		c := timednetconn.New(500*time.Millisecond, 300*time.Millisecond, rc)
 		var ops []string
 		for j := 0; j < 1+r.Intn(12); j++ {
+			if i%10 == 3 {
+				// time passes between two calls (the application was busy): the deadline is counted
+				// from the call, not from the previous reception
+				time.Sleep(150 * time.Millisecond)
+			}
 			if r.Intn(2) == 0 {
 				ops = append(ops, "R")
 				c.Read(make([]byte, 4)) //nolint:errcheck
